@@ -230,9 +230,59 @@ fn interp<C: Context>(k: u8, n: u32, ctx: &mut C) -> Out {
 pub struct MK(pub u32);
 impl pie::resource::map::MapKey for MK { type Value = i64; }
 
+// ---- the library's filesystem resource (PathBuf) with its own checkers, uninstrumented -----------------------------------
+pub fn file_path(num: u32) -> std::path::PathBuf { world::with(|w| w.file_dir.join(format!("r{}", num))) }
+/// contents differ in length and carry the value in their last line, so that a file that is not truncated when it is
+/// rewritten, or read from the wrong position, yields a wrong value
+pub fn file_content(v: i64) -> Vec<u8> { format!("{}value {}\n", "padding line\n".repeat(v.max(0) as usize), v).into_bytes() }
+pub fn file_value(bytes: &[u8]) -> i64 {
+  String::from_utf8_lossy(bytes).lines().filter(|l| !l.trim().is_empty()).last()
+    .and_then(|l| l.trim().strip_prefix("value ").and_then(|s| s.trim().parse().ok())).unwrap_or(-77)
+}
+pub fn file_get(num: u32) -> i64 { match std::fs::read(file_path(num)) { Ok(b) => file_value(&b), Err(_) => ABSENT } }
+pub fn file_set(num: u32, v: i64) {
+  let p = file_path(num);
+  if v == ABSENT { let _ = std::fs::remove_file(&p); } else { std::fs::write(&p, file_content(v)).expect("harness: write file resource"); }
+}
+
+fn read_file_res<C: Context>(ctx: &mut C, num: u32, c: &str) -> i64 {
+  use pie::resource::file::hash_checker::HashChecker;
+  use pie::resource::file::ExistsChecker;
+  use std::io::Read;
+  let path = file_path(num);
+  let mut open = match c {
+    "ex" => ctx.read(&path, ExistsChecker).expect("harness: unexpected file read error"),
+    _ => ctx.read(&path, HashChecker).expect("harness: unexpected file read error"),
+  };
+  match open.as_file() {
+    Some(f) => { let mut b = Vec::new(); f.read_to_end(&mut b).expect("harness: read file"); file_value(&b) }
+    None => ABSENT,
+  }
+}
+
+fn write_file_res<C: Context>(ctx: &mut C, r: i64, num: u32, c: &str, v: i64, two_step: bool) {
+  use pie::resource::file::hash_checker::HashChecker;
+  use pie::resource::file::ExistsChecker;
+  use std::io::Write;
+  let path = file_path(num);
+  // the task may remove the file it was asked to write (the checkers document this case)
+  let set = |f: &mut std::fs::File| -> Result<(), pie::resource::file::FsError> {
+    if v == ABSENT { std::fs::remove_file(file_path(num))?; } else { f.write_all(&file_content(v))?; f.flush()?; }
+    emit(json!({"ev":"res_set","r":r,"v":v,"id":0}));
+    Ok(())
+  };
+  if two_step {
+    { let mut f = ctx.create_writer(&path).expect("harness: unexpected create_writer error"); set(&mut f).expect("harness: file write"); }
+    match c { "ex" => ctx.written_to(&path, ExistsChecker), _ => ctx.written_to(&path, HashChecker) }.expect("harness: unexpected written_to error");
+  } else {
+    match c { "ex" => ctx.write(&path, ExistsChecker, set), _ => ctx.write(&path, HashChecker, set) }.expect("harness: unexpected write error");
+  }
+}
+
 fn read_res<C: Context>(ctx: &mut C, scn: &Scenario, r: i64, chk: RChk) -> i64 {
   let (ty, num) = (scn.rtype[(r - 1) as usize], scn.rnum[(r - 1) as usize]);
   match ty {
+    3 => read_file_res(ctx, num, chk.id()),
     2 => ctx.read(&MK(num), pie::resource::map::MapEqualsChecker).expect("harness: unexpected read error").copied().unwrap_or(ABSENT),
     0 => ctx.read(&Res::<0>(num), chk).expect("harness: unexpected read error").get(),
     1 => ctx.read(&Res::<1>(num), chk).expect("harness: unexpected read error").get(),
@@ -256,6 +306,7 @@ fn write_res<C: Context>(ctx: &mut C, scn: &Scenario, r: i64, chk: RChk, v: i64,
   match ty {
     0 => go(ctx, Res::<0>(num), chk, v, two_step),
     1 => go(ctx, Res::<1>(num), chk, v, two_step),
+    3 => write_file_res(ctx, r, num, chk.id(), v, two_step),
     2 => {
       use pie::resource::map::{MapEqualsChecker, MapWriter};
       use std::collections::hash_map::Entry;
@@ -359,12 +410,18 @@ pub fn task_id_of(ty: TypeId, num: u32) -> Option<i64> {
   world::scn().task_id(k, num)
 }
 pub fn res_id_of(ty: TypeId, num: u32) -> Option<i64> {
-  let k = if ty == TypeId::of::<Res<0>>() { 0 } else if ty == TypeId::of::<Res<1>>() { 1 } else if ty == TypeId::of::<MK>() { 2 } else { return None };
+  let k = if ty == TypeId::of::<Res<0>>() { 0 } else if ty == TypeId::of::<Res<1>>() { 1 } else if ty == TypeId::of::<MK>() { 2 }
+    else if ty == TypeId::of::<std::path::PathBuf>() { 3 } else { return None };
   world::scn().res_id(k, num)
 }
 
 /// Parses the number out of the debug text "Tk(n)" / "Res(n)".
 pub fn parse_num(s: &str) -> u32 {
+  if s.starts_with('"') {   // debug text of a path: the number is the trailing digits of the file name
+    let t = s.trim_matches('"');
+    let digits: String = t.chars().rev().take_while(|c| c.is_ascii_digit()).collect::<String>().chars().rev().collect();
+    return digits.parse().unwrap_or(0);
+  }
   let a = s.find('(').map(|i| i + 1).unwrap_or(0);
   let b = s.rfind(')').unwrap_or(s.len());
   s[a..b].trim().parse().unwrap_or(0)
@@ -373,6 +430,7 @@ pub fn parse_num(s: &str) -> u32 {
 /// Abstract value of the debug text of a stamp or output.
 pub fn parse_val(s: &str) -> i64 {
   let s = s.trim();
+  if s.starts_with("Some([") { return world::with(|w| w.hash_names.get(s).copied().unwrap_or(-88)); }
   if let Some(rest) = s.strip_prefix("Ok(") { return 2 * rest.trim_end_matches(')').parse::<i64>().unwrap_or(-99); }
   if let Some(rest) = s.strip_prefix("Err(") { return 2 * rest.trim_end_matches(')').parse::<i64>().unwrap_or(-99) + 1; }
   if let Some(rest) = s.strip_prefix("Some(") { return rest.trim_end_matches(')').parse::<i64>().unwrap_or(-99); }
@@ -388,7 +446,7 @@ pub fn parse_val(s: &str) -> i64 {
 /// Abstract id of the debug text of a checker.
 pub fn parse_chk(s: &str) -> &'static str {
   match s.trim() {
-    "Eq" => "eq", "Ex" => "ex", "Par" => "par", "Any" => "any", "EqF" => "eqF", "Near" => "near", "NearOut" => "near", "MapEqualsChecker" => "eq",
+    "Eq" => "eq", "Ex" => "ex", "Par" => "par", "Any" => "any", "EqF" => "eqF", "Near" => "near", "NearOut" => "near", "MapEqualsChecker" => "eq", "HashChecker" => "eq", "ExistsChecker" => "ex",
     "EqualsChecker" => "eq", "OkEqualsChecker" => "okeq", "ErrEqualsChecker" => "erreq", "ResultChecker" => "res",
     "AlwaysConsistent" => "any",
     _ => "?",
